@@ -231,7 +231,9 @@ func (og *OverlapGenerator) generateParagraphOverlap(text string) (string, int) 
 	return strings.TrimSpace(overlap.String()), sentenceCount
 }
 
-// truncateOverlap reduces overlap to fit within MaxOverlap while preserving sentences
+// truncateOverlap reduces overlap to fit within MaxOverlap while preserving sentences.
+// Overlap is the end of the chunk it was taken from, so it is the end of the
+// overlap that is kept.
 func (og *OverlapGenerator) truncateOverlap(overlap string) string {
 	if len(overlap) <= og.config.MaxOverlap {
 		return overlap
@@ -241,31 +243,35 @@ func (og *OverlapGenerator) truncateOverlap(overlap string) string {
 	sentences := splitIntoSentencesWithPositions(overlap)
 	if len(sentences) == 0 {
 		// No sentences, truncate at word boundary
-		return og.generateCharacterOverlap(overlap[:og.config.MaxOverlap])
+		return og.generateCharacterOverlap(overlap[len(overlap)-og.config.MaxOverlap:])
 	}
 
-	// Find how many sentences fit within MaxOverlap
-	var result strings.Builder
-	for _, s := range sentences {
-		test := result.String()
-		if result.Len() > 0 {
-			test += " "
+	// Find how many of the last sentences fit within MaxOverlap
+	first := len(sentences)
+	size := 0
+	for i := len(sentences) - 1; i >= 0; i-- {
+		added := len(sentences[i].text)
+		if size > 0 {
+			added++ // joining space
 		}
-		test += s.text
-
-		if len(test) > og.config.MaxOverlap {
+		if size+added > og.config.MaxOverlap {
 			break
 		}
+		size += added
+		first = i
+	}
 
+	if first == len(sentences) {
+		// Last sentence exceeds max, truncate it
+		return og.generateCharacterOverlap(overlap[len(overlap)-og.config.MaxOverlap:])
+	}
+
+	var result strings.Builder
+	for _, s := range sentences[first:] {
 		if result.Len() > 0 {
 			result.WriteString(" ")
 		}
 		result.WriteString(s.text)
-	}
-
-	if result.Len() == 0 {
-		// First sentence exceeds max, truncate it
-		return og.generateCharacterOverlap(overlap[:og.config.MaxOverlap])
 	}
 
 	return result.String()
